@@ -20,7 +20,9 @@ EXTENDS Handlers
 
 CONSTANTS Accepts,          \* Accept headers (sequences of media ranges) offered to RenderError
           JsonT, TextXmlT, AppXmlT,
-          MemoiseOffered
+          SufJson, SufXml,  \* subtypes spelled with a "+json" / "+xml" structured-syntax suffix
+          MemoiseOffered,
+          ExactLookup
 
 VARIABLES elast,            \* outcome of the last error rendering
           offmemo           \* wrong-design state: per object, the offered list remembered (<<>> = none) and its xml flag
@@ -35,16 +37,37 @@ Predefined(xml) == IF xml THEN <<JsonT, TextXmlT, AppXmlT>> ELSE <<JsonT>>
 InSeq(s, x) == \E i \in DOMAIN s : s[i] = x
 Offered(map, xml) == Predefined(xml) \o SelectSeq(KeySeq(map), LAMBDA k : ~InSeq(Predefined(xml), k))
 
-(* [ct: the Content-Type chosen (NOKEY = none), enc: who encoded the body] *)
-Outcome(offered, map, hdr, xml) ==
+(* nothing offered is acceptable: a range with a +json subtype anywhere in the header falls back on JSON, else one
+   with +xml on application/xml (whatever the xml flag says); NOKEY = no representation *)
+Mentions(hdr, S) == \E i \in DOMAIN hdr : hdr[i].s \in S
+Chosen(offered, hdr) ==
     LET b == BestIdx(hdr, offered) IN
-    IF b = 0 THEN [ct |-> NOKEY, enc |-> NOBODY]
-    ELSE LET t == offered[b]
-             hd == Designated(map, t, JsonT)
-         IN  IF t = JsonT THEN [ct |-> t, enc |-> IF hd = NONE THEN JSONENC ELSE hd]
-             ELSE IF hd # NONE THEN [ct |-> t, enc |-> hd]
-             ELSE IF xml THEN [ct |-> t, enc |-> XMLENC]
-             ELSE [ct |-> t, enc |-> NOBODY]
+    IF b # 0 THEN offered[b]
+    ELSE IF Mentions(hdr, SufJson) THEN JsonT ELSE IF Mentions(hdr, SufXml) THEN AppXmlT ELSE NOKEY
+(* WHO renders the body of the chosen type t: the handler the mapping designates for t BY THE MATCHING RULE of
+   Handlers.tla (t is spelled canonically, so a literally equal key wins, otherwise the first registered key of
+   maximal positive quality: application/xml; charset=utf-8, application/*, */* all serve application/xml) *)
+Renderer(map, t) == Designated(map, Lit(t), JsonT)
+(* [ct: the Content-Type chosen (NOKEY = none), enc: who encoded the body] *)
+OutcomeBy(t, hd, xml) ==
+    IF t = NOKEY THEN [ct |-> NOKEY, enc |-> NOBODY]
+    ELSE IF t = JsonT THEN [ct |-> t, enc |-> IF hd = NONE THEN JSONENC ELSE hd]
+    ELSE IF hd # NONE THEN [ct |-> t, enc |-> hd]
+    ELSE IF xml THEN [ct |-> t, enc |-> XMLENC]
+    ELSE [ct |-> t, enc |-> NOBODY]
+(* ExactLookup = the wrong design "the handler is looked up by the literal key only" *)
+Outcome(offered, map, hdr, xml) ==
+    LET t == Chosen(offered, hdr) IN
+    OutcomeBy(t, IF t = NOKEY THEN NONE
+                 ELSE IF ExactLookup THEN (IF HasKey(map, t) THEN Get(map, t) ELSE NONE)
+                 ELSE Renderer(map, t), xml)
+(* the encoders the property admits for the chosen type: where the literal-key shortcut applies, any handler under a
+   key of maximal positive quality (ShortcutInsideRule); otherwise exactly the rule's handler *)
+AdmittedEnc(map, t, xml) ==
+    IF t = NOKEY THEN {NOBODY}
+    ELSE IF ShortcutApplies(map, Lit(t), JsonT)
+         THEN {OutcomeBy(t, hd, xml).enc : hd \in DesignatedSet(map, Lit(t), JsonT)}
+         ELSE {OutcomeBy(t, RuleDesignated(map, Lit(t), JsonT), xml).enc}
 
 ErrorOutcome(map, hdr, xml) == Outcome(Offered(map, xml), map, hdr, xml)
 
@@ -58,7 +81,7 @@ RenderError(o, hdr, xml) ==
         out == Outcome(offered, objs[o].map, hdr, xml)
     IN  /\ elast' = [o |-> o, hdr |-> hdr, xml |-> xml, ct |-> out.ct, enc |-> out.enc]
         /\ offmemo' = [offmemo EXCEPT ![o] = [offered |-> offered, xml |-> xml]]
-        /\ last' = Rec("error", o, NOKEY, 0, NOKEY, NOKEY, xml, 0, FALSE)
+        /\ last' = Rec("error", o, NOKEY, 0, NOCT, NOKEY, xml, 0, FALSE)
         /\ UNCHANGED objs
 
 EMutate(o) == Mutate(o) /\ UNCHANGED <<elast, offmemo>>
@@ -71,7 +94,8 @@ OfferedFollowsMapping ==
                          IN  elast.ct = w.ct /\ elast.enc = w.enc
 (* Content-Type and body agree: a handler-encoded body comes from the handler the chosen type designates now *)
 TypeAndBodyAgree ==
-    last.op = "error" => /\ (elast.enc > 0 => elast.enc = Designated(objs[elast.o].map, elast.ct, JsonT))
+    last.op = "error" => /\ (elast.enc > 0 => elast.enc = Renderer(objs[elast.o].map, elast.ct))
+                         /\ elast.enc \in AdmittedEnc(objs[elast.o].map, elast.ct, elast.xml)
                          /\ (elast.ct = NOKEY => elast.enc = NOBODY)
                          /\ (elast.enc = XMLENC => elast.xml)
 ==============================================================================
